@@ -35,6 +35,9 @@ type C04Conf struct {
 	// snapshot of an instance that has been offline for a while, re-loaded at start-up): what counts for
 	// the cutoff is the time of loading, not the age of the snapshot
 	SnapAgeNs int64 `json:"snapshot_age_ns,omitempty"`
+	// e2e: the instance runs in shadow mode - the versions live in the shadow DBI, which is what the sweeper sweeps and what
+	// snapshots are merged into
+	Shadow bool `json:"shadow,omitempty"`
 }
 
 // maxDays: largest retention representable as a time.Duration
@@ -116,9 +119,14 @@ func checkC04E2E(c C04Conf, o *vcore.Obs) error {
 	conf := BaseConfig("a")
 	conf.Sweeper = sw
 	bucket := NewBucketHandle()
-	s, err := syncer.New(DBName, env.Env, bucket, conf, config.LMDB{SchemaTracksChanges: true}, syncer.Options{})
+	s, err := syncer.New(DBName, env.Env, bucket, conf, config.LMDB{SchemaTracksChanges: !c.Shadow}, syncer.Options{})
 	if err != nil {
 		return err
+	}
+	entDBI := "d" // where the versions live
+	if c.Shadow {
+		entDBI = syncer.SyncDBIShadowPrefix + "d"
+		o.Class("e2e-shadow-mode")
 	}
 	now := time.Now()
 	expiredTS := now.Add(-r).Add(-time.Duration(c.AgeOverNs))
@@ -135,7 +143,7 @@ func checkC04E2E(c C04Conf, o *vcore.Obs) error {
 	}
 	put := func(key string, ts time.Time, del bool) error {
 		return env.Update(func(txn *lmdb.Txn) error {
-			dbi, err := txn.OpenDBI("d", lmdb.Create)
+			dbi, err := txn.OpenDBI(entDBI, lmdb.Create)
 			if err != nil {
 				return err
 			}
@@ -145,6 +153,18 @@ func checkC04E2E(c C04Conf, o *vcore.Obs) error {
 				fl = 1
 			} else {
 				val = []byte("v")
+			}
+			if c.Shadow {
+				// the application's DBI holds the live entries
+				main, err := txn.OpenDBI("d", lmdb.Create)
+				if err != nil {
+					return err
+				}
+				if !del {
+					if err := txn.Put(main, []byte(key), val, 0); err != nil {
+						return err
+					}
+				}
 			}
 			return txn.Put(dbi, []byte(key), model.BuildHeader(uint64(ts.UnixNano()), uint64(txn.ID()), fl, nil, val), 0)
 		})
@@ -215,14 +235,14 @@ func checkC04E2E(c C04Conf, o *vcore.Obs) error {
 	} else {
 		return fmt.Errorf("SendOnce stored nothing")
 	}
-	swp := sweeper.New(DBName, sw, env.Env, logrus.StandardLogger(), true)
+	swp := sweeper.New(DBName, sw, env.Env, logrus.StandardLogger(), !c.Shadow)
 	if err := swp.VerifSweepOnce(context.Background()); err != nil {
 		return fmt.Errorf("sweep: %v", err)
 	}
 	present := func(key string) bool {
 		ok := false
 		_ = env.View(func(txn *lmdb.Txn) error {
-			dbi, err := txn.OpenDBI("d", 0)
+			dbi, err := txn.OpenDBI(entDBI, 0)
 			if err != nil {
 				return nil
 			}
@@ -273,7 +293,7 @@ func checkC04E2E(c C04Conf, o *vcore.Obs) error {
 	if haveOldLive {
 		var stillLive bool
 		_ = env.View(func(txn *lmdb.Txn) error {
-			dbi, err := txn.OpenDBI("d", 0)
+			dbi, err := txn.OpenDBI(entDBI, 0)
 			if err != nil {
 				return nil
 			}
@@ -292,7 +312,7 @@ func checkC04E2E(c C04Conf, o *vcore.Obs) error {
 	if haveLate {
 		var live bool
 		_ = env.View(func(txn *lmdb.Txn) error {
-			dbi, err := txn.OpenDBI("d", 0)
+			dbi, err := txn.OpenDBI(entDBI, 0)
 			if err != nil {
 				return nil
 			}
@@ -326,10 +346,11 @@ func maxI64(a, b int64) int64 {
 
 func TestC04SweepThenLoad(t *testing.T) {
 	vcore.Run(t, vcore.Config{Property: "C04",
-		Rule: "rapid sweeper configurations end to end on a native instance: markers aged retention+margin / retention/2 and an old live entry; VerifSweepOnce, then LoadOnce of a peer snapshot still carrying the swept marker plus a one second old marker: swept marker not re-created, fresh marker accepted; non-trivial = case executed (retention reaches back no further than 1970)"},
+		Rule: "rapid sweeper configurations end to end on a native instance (a third: on a shadow-mode instance, whose shadow DBI holds the versions): markers aged retention+margin / retention/2 and an old live entry; VerifSweepOnce, then LoadOnce of a peer snapshot still carrying the swept marker plus a one second old marker: swept marker not re-created, fresh marker accepted; non-trivial = case executed (retention reaches back no further than 1970)"},
 		func(t *rapid.T) C04Conf {
 			c := genC04Conf(t)
 			c.E2E = true
+			c.Shadow = rapid.IntRange(0, 2).Draw(t, "shadow") == 0
 			c.AgeOverNs = int64(rapid.SampledFrom([]time.Duration{time.Second, time.Hour, 24 * time.Hour}).Draw(t, "over"))
 			c.SnapAgeNs = int64(rapid.SampledFrom([]time.Duration{0, 0, time.Second, time.Hour, 10 * 24 * time.Hour, 300 * 24 * time.Hour}).Draw(t, "snap_age"))
 			// keep a good share of cases executable: retention below ~56 years
